@@ -369,7 +369,7 @@ func TestC16(t *testing.T) {
 	r.Assume("comparison on a tag the series lacks: '= non-empty' is false, '!= \"\"' is false; '!= non-empty' and '= \"\"' are not asserted (InfluxQL empty-string reading and storage null reading disagree)",
 		"series keys are OSS keys (measurement,tags#!~#field): no \\xff field tag, so _field comparisons see an absent tag",
 		"tag values ending in a backslash are excluded (line protocol cannot represent them: C11)")
-	n := r.N(300, 8000)
+	n := r.N(1500, 8000)
 
 	series := c16AllSeries()
 	// real series file holding every series of the domain
